@@ -399,6 +399,27 @@ Theorem C08_Exts4_enc_dec : forall start bs e n rest, bytes_ok bs -> x4_from_sli
        /\ x4_from_slice start (b ++ rest) = Ok (e, n, rest).
 Proof. exact EXTS4.C08_Exts4_enc_dec. Qed.
 Print Assumptions C08_Exts4_enc_dec.
+
+(* Ipv6Extensions, on the model of property C12 (ExtChain/); kept last: the imports shadow Ok/Err *)
+Module X6.
+Import ExtChain.Spec ExtChain.Model ExtChain.Proofs Roundtrip.Exts6Proofs.
+Theorem C08_Exts6_dec_enc_partial : forall e first bs n rest, exts6_valid e = true ->
+  write e first = (bs, Ok tt) -> next_header e first = Ok n -> is_ext_number n = false ->
+  len bs = header_len e /\ from_slice first (bs ++ rest) = Ok (e, n, rest).
+Proof. exact EXTS6.C08_Exts6_dec_enc_partial. Qed.
+Print Assumptions C08_Exts6_dec_enc_partial.
+Theorem C08_Exts6_enc_dec : forall first bs e n r, bytes_ok bs -> from_slice first bs = Ok (e, n, r) ->
+  exts6_valid e = true /\
+  exists bs' cons, write e first = (bs', Ok tt) /\ next_header e first = Ok n
+    /\ bs = cons ++ r /\ hdr_eq bs' cons /\ len bs' = header_len e
+    /\ forall t, from_slice first (bs' ++ t) = Ok (e, n, t).
+Proof. exact EXTS6.C08_Exts6_enc_dec. Qed.
+Print Assumptions C08_Exts6_enc_dec.
+Theorem C08_Exts6_frame : forall first s t e n r,
+  from_slice first s = Ok (e, n, r) -> from_slice first (s ++ t) = Ok (e, n, r ++ t).
+Proof. exact EXTS6.C08_Exts6_frame. Qed.
+Print Assumptions C08_Exts6_frame.
+End X6.
 (*c08a-more*)
 End LINKNET.
 (* ---- end extend-c08a ---- *)
